@@ -7,6 +7,7 @@ package http2
 import (
 	"bytes"
 	"fmt"
+	"io"
 	"testing"
 
 	"pgregory.net/rapid"
@@ -419,9 +420,9 @@ func c06CheckFrame(o *c06Op, w c06Want, f Frame) error {
 }
 
 type c06Written struct {
-	op    int
-	want  c06Want
-	bytes []byte
+	op       int
+	want     c06Want
+	from, to int // the frame's bytes in the written stream
 }
 
 func c06Prop(c c06Case, r *vp.Rec) error {
@@ -465,7 +466,7 @@ func c06Prop(c c06Case, r *vp.Rec) error {
 		if int(wh.Length) != w.length {
 			return fmt.Errorf("op %d (%s): length field %d for a %d-byte payload", i, o.Kind, wh.Length, w.length)
 		}
-		written = append(written, c06Written{op: i, want: w, bytes: append([]byte(nil), out...)})
+		written = append(written, c06Written{op: i, want: w, from: before, to: wire.Len()})
 		r.Class("wrote:" + o.Kind)
 		padded := (o.Kind == "data" && o.PadMode != 0) || ((o.Kind == "headers" || o.Kind == "pushpromise") && o.PadLen != 0)
 		if padded {
@@ -517,16 +518,15 @@ func c06Prop(c c06Case, r *vp.Rec) error {
 	// opening HEADERS frame on the same stream.
 	for _, wr := range written {
 		o := &c.Ops[wr.op]
-		var in bytes.Buffer
+		var open bytes.Buffer
 		pre := false
 		if o.Kind == "continuation" {
 			pre = true
-			if err := NewFramer(&in, nil).WriteHeaders(HeadersFrameParam{StreamID: o.Stream}); err != nil {
+			if err := NewFramer(&open, nil).WriteHeaders(HeadersFrameParam{StreamID: o.Stream}); err != nil {
 				return fmt.Errorf("op %d: cannot write opening HEADERS: %v", wr.op, err)
 			}
 		}
-		in.Write(wr.bytes)
-		dfr := NewFramer(nil, &in)
+		dfr := NewFramer(nil, io.MultiReader(&open, bytes.NewReader(all[wr.from:wr.to])))
 		if pre {
 			if _, err := dfr.ReadFrame(); err != nil {
 				return fmt.Errorf("op %d: reading opening HEADERS: %v", wr.op, err)
@@ -557,7 +557,7 @@ func c06GenOp(t *rapid.T) c06Op {
 			// around the 2^24-1 limit, overhead of the frame type included
 			o.Fill = 1<<24 - 1 - rapid.IntRange(-3, 270).Draw(t, "below2p24")
 			o.FillSeed = rapid.Byte().Draw(t, "seed")
-		case sz%10 < 7:
+		case sz%10 < 8:
 			o.Body = vp.Bytes(0, 24).Draw(t, "body")
 		default:
 			o.Body = vp.Bytes(0, 3).Draw(t, "body")
